@@ -14,7 +14,8 @@ import scen
 PROP = "C07"
 POOL = ["ed1", "ed2", "ed3", "ed4", "ed5", "ed6", "edp1", "edp2", "ec-b", "ec-c"]
 DISSENT = ["none", "none", "byproducts_only", "command_only", "path", "digest", "alg", "extra", "missing", "second_alg",
-           "digest_truncated", "digest_extended", "digest_last_bit", "path_respelled", "extra_respelled_entry"]
+           "digest_truncated", "digest_extended", "digest_last_bit", "path_respelled", "extra_respelled_entry",
+           "extra_without_digests", "digests_emptied"]
 
 
 def judge(case, obs, res):
@@ -73,6 +74,11 @@ def dissent_doc(doc, kind, where, rng):
         tgt[p] = dict(tgt[p], sha512="ab" * 64)
     elif kind == "extra":
         tgt["extra/file"] = scen.digest(0x77)
+    elif kind == "extra_without_digests":
+        # an additional artifact recorded without any digest is an additional artifact all the same
+        tgt[rng.choice(["NOTICE", "extra/file", "out/zz"])] = {}
+    elif kind == "digests_emptied":
+        tgt[rng.choice(paths)] = {}
     elif kind == "missing":
         del tgt[rng.choice(paths)]
     elif kind == "byproducts_only":
@@ -171,5 +177,5 @@ def main(ctx):
         required=["positive_control_accepted", "dissent:path", "dissent:digest", "dissent:alg", "dissent:extra",
                   "dissent:missing", "where:materials", "where:products", "rank:smallest", "rank:largest", "rank:middle",
                   "surplus_links", "threshold:2", "threshold:3", "threshold:4", "dissent:byproducts_only", "dissent:digest_truncated", "dissent:path_respelled",
-                  "dissenter_cosigned_another_link:dissent", "dissenter_cosigned_another_link:no_artifact_dissent"],
+                  "dissent:extra_without_digests", "dissent:digests_emptied", "dissenter_cosigned_another_link:dissent", "dissenter_cosigned_another_link:no_artifact_dissent"],
         min_evals=1000)
